@@ -81,7 +81,7 @@ func applyDemo(o *proxyv1alpha1.UpstreamCluster) (bool, string) {
 	}
 	ls, _, _ := applyLimiter(o, nil)
 	for _, x := range ls {
-		if !x.clean() {
+		if !x.clean() && x.judgeable() {
 			return true, fmt.Sprintf("%s: %s %s", x.Consumer, x.Kind, x.Detail)
 		}
 	}
